@@ -21,7 +21,8 @@ func (tb *tokenBucket) adjustOnFailure(statusCode int) {
 	// For rate limiting errors, impose a penalty period.
 	case statusCode == 429 || statusCode == 403 || statusCode == 408 || statusCode == 425:
 		tb.failureCount++
-		penalty := min(time.Duration(float64(basePenaltyDuration)*math.Pow(2, float64(tb.failureCount-1))), maxPenaltyDuration)
+		// Cap before converting: the exponential overflows time.Duration from the 32nd consecutive failure on
+		penalty := time.Duration(math.Min(float64(basePenaltyDuration)*math.Pow(2, float64(tb.failureCount-1)), float64(maxPenaltyDuration)))
 		tb.penaltyUntil = now.Add(penalty)
 		// Optionally, clear tokens to prevent immediate further requests.
 		tb.tokens = 0
